@@ -484,6 +484,20 @@ static void cb_ai(void *arg, int st, int, struct ares_addrinfo *ai)
   if (ai) ares_freeaddrinfo(ai);
   done_tok((int)(intptr_t)arg, st);
 }
+static int new_tok();
+static void q_query(ares_channel_t *ch, const char *name);
+static ares_channel_t  *g_chain_ch = nullptr;
+// completion callback that, still inside the library call that completed it, cancels the channel (the queue is empty at
+// that moment, waiters are notified) and at once issues the next request, to a server that no longer answers: at no
+// point outside the library's critical section is the queue empty
+static void cb_rec_cancel_and_reissue(void *arg, ares_status_t st, size_t, const ares_dns_record_t *)
+{
+  done_tok((int)(intptr_t)arg, (int)st);
+  if (st != ARES_SUCCESS || !g_chain_ch) return;
+  g_reply_mode[0] = 0;
+  ares_cancel(g_chain_ch);
+  q_query(g_chain_ch, "b.example.com");
+}
 static int new_tok()
 {
   int t               = g_ntoks++;
@@ -626,6 +640,14 @@ static std::vector<Prog> programs()
                  join(a);
                  join(b);
                  wait_all(ch, "P6");
+               } });
+  v.push_back({ "P8-wait-empty-vs-callback-that-cancels-and-reissues", "c11", 0, 1, 1, 1, [](ares_channel_t *ch) {
+                 g_chain_ch = ch;
+                 int t      = new_tok();
+                 ares_query_dnsrec(ch, "a.example.com", ARES_CLASS_IN, ARES_REC_TYPE_A, cb_rec_cancel_and_reissue, (void *)(intptr_t)t, nullptr);
+                 Client *w = spawn([ch] { wait_all(ch, "P8 waiter"); });
+                 join(w);
+                 g_chain_ch = nullptr;
                } });
   v.push_back({ "P7-destroy-while-busy", "c11", 0, 1, 0, 1, [](ares_channel_t *ch) {
                  q_query(ch, "a.example.com");
